@@ -145,11 +145,39 @@ func main() {
 		}
 		enc.Encode(r)
 		for _, e := range run(c) {
-			enc.Encode(e)
+			enc.Encode(noNulls(map[string]interface{}(e)))
 			nev++
 		}
 	}
 	w.Flush()
 	out.Close()
 	fmt.Printf("cases=%d events=%d\n", len(cases), nev)
+}
+
+// noNulls replaces nil values (nil slices, nil maps, nil interfaces) by empty arrays: the trace reader of TLC has no null, and a
+// recorded "nothing" has to be a value that a trace specification can compare.
+func noNulls(v interface{}) interface{} {
+	switch t := v.(type) {
+	case nil:
+		return []interface{}{}
+	case map[string]interface{}:
+		for k, x := range t {
+			t[k] = noNulls(x)
+		}
+		return t
+	case Event:
+		for k, x := range t {
+			t[k] = noNulls(x)
+		}
+		return t
+	case []interface{}:
+		if t == nil {
+			return []interface{}{}
+		}
+		for i, x := range t {
+			t[i] = noNulls(x)
+		}
+		return t
+	}
+	return v
 }
